@@ -151,11 +151,6 @@ Qed.
 
 (* ================= 3. the shapes of an operation ================= *)
 
-Definition op_ok (s s' : server) : Prop :=
-  srv_base s' /\
-  (sv_running s = true ->
-   (rb_repl s -> rb_repl s') /\ forall t st, pending_ok s t st -> pending_ok s' t st).
-
 Lemma op_ok_refl s : srv_base s -> op_ok s s.
 Proof. intros H. split; [exact H|]. intros _. split; auto. Qed.
 
@@ -510,9 +505,6 @@ Lemma buffer_removals_eq s :
   set_bufs s (sv_despawn_buf s)
            (fold_left (bstep s (sv_removed_events s)) (event_entities (sv_removed_events s)) (sv_removal_buf s)) [].
 Proof. reflexivity. Qed.
-
-Definition buffered_in (rb : list (N * list N)) (e k : N) : Prop :=
-  exists ks, al_get e rb = Some ks /\ mem_N k ks = true.
 
 Section BStep.
 Variables (s : server) (evs : list (N * N * N)).
